@@ -18,6 +18,18 @@ import common  # noqa: E402
 
 
 def main(argv):
+    if argv[:1] == ['--regenerate']:
+        # setup: bring lean/GeoVerif/Gen/*.lean in line with the current source before the cold build
+        try:
+            common.import_repo()
+            import extract
+            changed = extract.regenerate()
+            broken = {u: w for u, w in extract.SOURCE_TIE.items() if w}
+            print(f'regenerated: {changed or "nothing changed"}' + (f'; untranslatable units: {broken}' if broken else ''))
+            return 0
+        except Exception:
+            traceback.print_exc()
+            return 2
     if len(argv) < 2:
         print('usage: check <Cxx> quick|thorough | check <Cxx> --replay <file>')
         return 2
